@@ -13,7 +13,7 @@
    Nothing but statements lives in this file. *)
 From Coq Require Import ZArith List Bool String.
 From VV Require Import Base.F64 Mep.Genome Lang.LangBase Gen.Templates Lang.LangDefs Lang.LangProofs
-  Lang.SynDefs Lang.SynProofs Lang.TableChecks Lang.Witness.
+  Lang.SynDefs Lang.SynProofs Lang.ParseProofs Lang.ReadProofs Lang.TableChecks Lang.Witness.
 Import ListNotations.
 Local Open Scope Z_scope.
 
@@ -68,20 +68,39 @@ Theorem C19_table_ok_all_trees : forall f env t,
 Proof. exact lex_render_all_trees. Qed.
 Print Assumptions C19_table_ok_all_trees.
 
-(* 4. Printer / parser round trip -- PARTIAL.
-   Full statement (not proved):
-     forall f e, wf_prec (gram_of f) (root_min f) e = true -> holes_lt 0 e = true ->
-                 parse (gram_of f) (toks_of (gram_of f) e) = Some e
-   which with theorem 3 gives  read f (render t) = Some (ast t)  for all programs.
-   Proved: the round trip of every template of the table on its own.  The gap
-   is covered at run time: the extracted [read] is applied to every text the
-   IMPLEMENTATION prints in the correspondence and compared with [ast], and the
-   C / C++ / Python compilers are the parsers of the tie. *)
-Theorem C19_parse_pp_partial : forall f n txt, table_ok f = true -> In (n, txt) (fun_table f) ->
-  exists ts a, tlex n (segs_of txt) = Some ts /\ parse (gram_of f) ts = Some a /\
-               toks_of (gram_of f) a = ts /\ parse (gram_of f) (toks_of (gram_of f) a) = Some a.
-Proof. exact template_round_trip. Qed.
-Print Assumptions C19_parse_pp_partial.
+(* 4. Printer / parser round trip.  For every expression in which every
+   operand offers the precedence its position demands ([wf_prec], for any
+   precedence [hp] assumed of placeholders), the precedence-climbing parser
+   applied to the expression's tokens returns the expression itself; the fuel
+   4 * (number of tokens) + 8 built into [parse] is sufficient. *)
+Theorem C19_parse_pp : forall f hp e,
+  wf_prec (gram_of f) hp e = true -> parse (gram_of f) (toks_of (gram_of f) e) = Some e.
+Proof. exact parse_toks. Qed.
+Print Assumptions C19_parse_pp.
+
+(* 5. Together: the text printed for EVERY program over the shipped classes,
+   lexed and parsed with the format's precedences, is the program's own
+   expression -- every function node is its template with each placeholder
+   replaced by the complete sub-expression of the corresponding argument. *)
+Theorem C19_printed_text_reads_as_program : forall f env t,
+  table_ok f = true -> good_tree env f t = true -> tree_ok env f t = true ->
+  exists txt, render_tree env f t = Some txt /\ read f txt = Some (ast env f t).
+Proof. exact read_render_all_trees. Qed.
+Print Assumptions C19_printed_text_reads_as_program.
+
+(* 6. The outermost-parenthesis strip of language() (length > 2, first byte
+   '(' and last byte ')' -- the code does not check that the two match): for
+   every program over the table the test fires only on a parenthesised
+   expression, and the stripped text reads as that expression without its outer
+   pair; otherwise the text reads as the whole expression. *)
+Theorem C19_language_strip_preserves_expression : forall f env t,
+  table_ok f = true -> good_tree env f t = true -> tree_ok env f t = true ->
+  exists txt top,
+    render_tree env f t = Some txt /\ language_tree env f t = Some top /\
+    read f top = Some (if strips txt then strip_paren (ast env f t) else ast env f t) /\
+    (strips txt = true -> is_paren (ast env f t) = true).
+Proof. exact language_reads_all_trees. Qed.
+Print Assumptions C19_language_strip_preserves_expression.
 
 (* ---- non-vacuity: the hypotheses hold of real programs, the model computes,
    and on them the full chain text -> tokens -> tree closes by computation *)
